@@ -38,6 +38,11 @@ def jobs(ctx):
         if li == 0 and lag == 0 and strat in ('sorted', 'max', 'timesorted'):
           # a cache query for a series that holds nothing, served on the reactor thread while the writer walks the cache
           out.append((dict(p, reactor=[p['reactor'][0], ('query', 'zz'), p['reactor'][1], ('query', 'yy'), p['reactor'][2]]), (2 if strat == 'sorted' else ctx.pick(1, 2), fb)))
+        if li == 0 and lag == 0 and strat in ('sorted', 'max'):
+          # flow control with a paused client connected when the stop arrives: the final flush crosses the low watermark and
+          # resumes the receivers FROM THE WRITER THREAD while the reactor thread is joining it
+          out.append((dict(p, receiver=True, max_cache=2, flow=True, init=[('a', 1, 1.0), ('a', 2, 1.5)],
+                           reactor=[('store', 'b', 1, 2.0), ('stop',)]), (2, fb)))
         if li == 0 and strat in ('timesorted', 'sorted'):
           # the stop as the daemon's own service object performs it (WriterService started for real; twisted's 'before
           # shutdown' triggers, then stopService), also after one of its periodic reload tasks has died
